@@ -143,6 +143,8 @@ def run(ck, facts, tier):
     cg = CallGraph(facts, crates)
     may_db = cg.fixpoint(lambda k: k.startswith(DB_TRAITS))
     ck.count("functions-that-may-call-the-database", len([k for k in may_db if k in cg.bodies]))
+    from props.c10 import table_insert
+    table_insert(ck, facts, cg, "C12.TABLE-AFTER-BUILD")
 
     R = "C12.SLG-OWNERSHIP"
     ck.rule(R, "K7: for every function of chalk_engine::logic, at each call site whose callee may reach a database callback, the cleanup "
